@@ -63,6 +63,7 @@ CONSTANTS
   PairFirst,   \* a further message may start only if every earlier length is in PairFirst
   TypedFlush,  \* subset of BOOLEAN: may the typed sender call FlushFrame(false) explicitly?
   Interleave,  \* TRUE: receiver runs concurrently with the sender; FALSE: after it
+  MaxAbandon,  \* > 0: the application may give up an unsent draft and start the message over
   Bug
 
 VARIABLES
@@ -263,6 +264,20 @@ MsgFinish ==
   /\ sbuf' = 0
   /\ UNCHANGED <<sMsg, sOff, sEOM, nWrites>>
 
+(* --- giving up a draft ---------------------------------------------------- *)
+\* The application abandons a message of which NOTHING has left yet (every byte
+\* it wrote is still in the send buffer) and starts it over: StartMessage (a new
+\* Message object for the typed layer) discards the draft, so the message that is
+\* eventually sent consists of the bytes written after the restart only. Once a
+\* partial frame has left, the wire format has no way to take it back and the
+\* statement is silent: the model does not go there.
+Abandon ==
+  /\ Sending /\ MaxAbandon > 0 /\ sapi \in {"buffered", "typed"} /\ sState = "open" /\ ~sEOM
+  /\ sbuf > 0 /\ sOff = sbuf
+  /\ sOff' = 0 /\ nWrites' = 0
+  /\ sbuf' = IF "RestartKeepsBuffer" \in Bug THEN sbuf ELSE 0
+  /\ UNCHANGED <<sState, sMsg, sEOM, nProt, wire, sent, senderErr>>
+
 SenderStop ==
   /\ phase = "send"
   /\ \/ senderErr
@@ -275,7 +290,7 @@ SenderStep ==
      \/ \E n \in WriteSizes : ExplicitPartial(n) \/ SendWhole(n) \/ AppWrite(n) \/ MsgPut("bytes", n)
      \/ \E n \in StrSizes : MsgPut("string", n)
      \/ \E n \in StrBytesSizes : MsgPut("stringbytes", n)
-     \/ EndMessage \/ MsgFlush \/ MsgFinish
+     \/ EndMessage \/ MsgFlush \/ MsgFinish \/ Abandon
   /\ UNCHANGED <<enc, sapi, rapi, phase, rcvVars>>
 
 -----------------------------------------------------------------------------
